@@ -53,11 +53,28 @@ pub const FAULT_CLASSES: &[&str] = &[
     // a name declared in a block is unknown once that block has closed, also from inside a later block of the same frame
     "block_local_read_after_block", "block_local_read_in_later_block", "block_local_assigned_in_later_block", "block_local_in_function_later_block",
     "loop_body_local_read_after_loop",
+    // diagnostics about very long, non-ASCII text (three alignments of a 3-byte character against any byte offset a message is cut at)
+    "print_long_non_ascii_format_surplus_argument_0", "print_long_non_ascii_format_surplus_argument_1", "print_long_non_ascii_format_surplus_argument_2",
+    // characters an implementation might use as in-band marks inside a format string
+    "print_object_replacement_character_with_argument", "print_private_use_character_with_argument", "print_nul_character_with_argument",
+    // an operator applied to an object that defines only the Feeny spelling of it (and the other way round) is an unknown method
+    "operator_on_object_defining_only_feeny_add", "operator_on_object_defining_only_feeny_eq", "feeny_spelling_on_object_defining_only_operator",
 ];
 
 pub fn fault(class: &str, k: usize) -> Fault {
     let f = |expr: &str| Fault { class: FAULT_CLASSES.iter().find(|c| **c == class).copied().unwrap_or("unknown_variable"), defs: vec![], expr: expr.to_string(), own: String::new(), own_exact: true };
     match class {
+        "print_long_non_ascii_format_surplus_argument_0" | "print_long_non_ascii_format_surplus_argument_1" | "print_long_non_ascii_format_surplus_argument_2" => {
+            let pad = match class.as_bytes()[class.len() - 1] { b'0' => "", b'1' => "a", _ => "ab" };
+            let text = format!("{}{}", pad, "€".repeat(2800));
+            Fault { own: text.clone(), own_exact: false, ..f(&format!("print(\"{}\", 1)", text)) }
+        }
+        "print_object_replacement_character_with_argument" => Fault { own: "\u{fffc}\n".into(), own_exact: false, ..f("print(\"\u{fffc}\\n\", 7)") },
+        "print_private_use_character_with_argument" => Fault { own: "\u{e000}\u{f8ff}\n".into(), own_exact: false, ..f("print(\"\u{e000}\u{f8ff}\\n\", 7)") },
+        "print_nul_character_with_argument" => Fault { own: "a\u{1}b\n".into(), own_exact: false, ..f("print(\"a\u{1}b\\n\", 7)") },
+        "operator_on_object_defining_only_feeny_add" => f("(object begin function add(x) -> 1; end) + 1"),
+        "operator_on_object_defining_only_feeny_eq" => f("(object begin function eq(x) -> true; function le(x) -> true; end) <= 1"),
+        "feeny_spelling_on_object_defining_only_operator" => f("(object begin function +(x) -> 1; end).add(1)"),
         "unknown_variable" => f("zz_undefined_variable"),
         "unknown_variable_in_block" => f("begin let zzq = 1; zz_undefined_variable + zzq end"),
         "unknown_variable_in_function" => {
@@ -621,7 +638,10 @@ pub fn mutate_source(source: &str, rng: &mut Rng) -> (String, &'static str) {
         return ("$".into(), "garbage");
     }
     let i = *rng.pick(&solid);
-    let kind = match rng.below(9) {
+    let kind = match rng.below(11) {
+        // what other tools put in front of or behind a program text: a `#!` line, a byte-order mark, a form feed, a trailing NUL or ^Z
+        9 => { let pre = *rng.pick(&["#!/usr/bin/env fml\n", "#!fml run\n", "\u{feff}", "#! \n", "\u{c}", "#\n"]); return (format!("{}{}", pre, t.concat()), "prepend_foreign_first_line"); }
+        10 => { let post = *rng.pick(&["\u{0}", "\u{1a}", "\n#!end\n", "\n\u{feff}"]); return (format!("{}{}", t.concat(), post), "append_foreign_tail"); }
         0 => { t.remove(i); "delete_token" }
         1 => { let x = t[i].clone(); t.insert(i, x); "duplicate_token" }
         2 => { let j = *rng.pick(&solid); t.swap(i, j); "swap_tokens" }
